@@ -88,6 +88,7 @@ type vfFile struct {
 	link  string
 	// sizeZero: the backend does not know sizes: Stat reports 0 whatever the content is
 	sizeZero bool
+	st       *vfStore
 	mode     os.FileMode
 }
 
@@ -137,6 +138,9 @@ type vfStore struct {
 	// ShortAt, if set, may cap a ReadAt at fewer bytes than asked for, with a nil error (a short
 	// DATA reply that is not the end of the file: unusual, legal for a peer). 0 = no cap.
 	ShortAt func(path string, off int64, n int) int
+	// ReportSizeStale: attributes report three fifths of a file's real size (a file that has grown since its size was
+	// taken): what is read must still be the whole content
+	ReportSizeStale bool
 	// ReportSizeZero: files created from now on report size 0 in their attributes (a backend without sizes, procfs-like)
 	ReportSizeZero bool
 	// ViaWithContext: every handler method first derives its own request with Request.WithContext (the usual way
@@ -189,7 +193,7 @@ func (s *vfStore) Objs() []*vfObj {
 // Put creates or replaces a regular file.
 func (s *vfStore) Put(path string, data []byte) {
 	s.mu.Lock()
-	s.files[path] = &vfFile{data: append([]byte(nil), data...), mode: 0o644, mtime: s.Now, sizeZero: s.ReportSizeZero}
+	s.files[path] = &vfFile{data: append([]byte(nil), data...), mode: 0o644, mtime: s.Now, sizeZero: s.ReportSizeZero, st: s}
 	s.mu.Unlock()
 }
 
@@ -407,6 +411,10 @@ func (i vfStoreInfo) Size() int64 {
 	if i.f.link != "" {
 		return int64(len(i.f.link))
 	}
+	if i.f.st != nil && i.f.st.ReportSizeStale {
+		// a size taken a while ago: the file has grown since (by two fifths)
+		return int64(len(i.f.data)) * 3 / 5
+	}
 	if i.f.sizeZero {
 		return 0
 	}
@@ -450,7 +458,7 @@ func (h vfHBase) open(r *Request, iface, kind string) (*vfObj, error) {
 			s.mu.Unlock()
 			return nil, os.ErrNotExist
 		}
-		f = &vfFile{mode: 0o644, mtime: s.Now, sizeZero: s.ReportSizeZero}
+		f = &vfFile{mode: 0o644, mtime: s.Now, sizeZero: s.ReportSizeZero, st: s}
 		s.files[r.Filepath] = f
 	} else if f.isDir {
 		s.mu.Unlock()
